@@ -14,11 +14,12 @@ From Coq Require Import Permutation.
    the digraph {u -> v | v neighbour of u, T u v} with the initially recovered nodes removed;
    S + I + R = N; the history of v (full data) has an I entry at tmin + k iff v is in I_k
    and an R entry exactly one step later (C12_history_entries). *)
-(* Scope: test_recovery = None and initial_infecteds given.  FULL statement of the property also
-   covers a user recovery test (node stays infectious until the test succeeds; for a rule that is
-   a function of the pair the infection times are still the BFS distances) and the rho path
-   (initial nodes drawn by random.sample): those two are validated by the correspondence and by
-   the independent BFS / generation oracle of harness/disc_lib.py only -- not proved here. *)
+(* Scope of THIS theorem: test_recovery = None and initial_infecteds given.  WITH a user recovery test
+   (table rules that are functions of the pair): Props/C12rec.v -- same infection times = BFS distances,
+   infectious until the test first succeeds.  Arbitrary rules (incl. age-dependent ones, the default rule
+   under any draw script), both simulators: Props/C04disc.v, C09disc.v, C10disc.v state what those runs are.
+   The rho path (initial nodes drawn by random.sample): Props/C05disc.v -- a rho run is a run from an
+   explicit duplicate-free set.  Independence of the iteration order in all these cases: Props/C12ord.v. *)
 Theorem C12_dsir_bfs : forall g tt pick ord i0 r0o tmin tmax full fuel,
   let r0 := opt_list r0o in let T := T0 tt in
   wf_inputb g i0 r0 = true -> perm_oracle ord -> (length (gnodes g) < fuel)%nat ->
@@ -128,11 +129,11 @@ Print Assumptions C12_perc_graph.
    edge) percolation_based_discrete_SIR -- which flips every coin first, builds H and runs
    discrete_SIR(H, H.has_edge) -- and basic_discrete_SIR -- which looks a coin up when the contact
    is tested -- return the same rows and the same node histories, for any two iteration orders.
-   Equality IN LAW of the two functions under independent Bernoulli(p) coins then follows by the
-   principle of deferred decisions, which is CITED (DESIGN section 3 item 7), not formalised:
-   in basic_discrete_SIR no undirected edge is tested twice as an infectious-susceptible contact
-   (checked dynamically on every run by the query oracle of harness/c12.py), so testing lazily
-   with fresh coins has the law of reading a table of i.i.d. coins fixed in advance. *)
+   Equality IN LAW under independent Bernoulli(p) coins -- the principle of deferred decisions -- is
+   PROVED in Props/C12law.v over the `law` semantics: C12_law_deferred / C12_law_deferred_full (the law of
+   a whole run of basic_discrete_SIR = the law of flipping one coin per arc first and then running the
+   deterministic simulator, for every event on the output), C12_perc_basic_rows_law (percolation-based and
+   basic agree in law on every event of the rows), C12_sis_law_deferred (basic_discrete_SIS). *)
 Theorem C12_perc_sir_pathwise : forall g tt pick ord1 ord2 i0 r0 tmin tmax full fuel1 fuel2,
   wf_inputb g i0 r0 = true -> sym_graphb g = true -> (forall u v, tt u v O = tt v u O) ->
   perm_oracle ord1 -> perm_oracle ord2 ->
